@@ -6,6 +6,15 @@ var _ = gosym.Options{}
 
 var props = []PropSpec{
 	{
+		ID: "C20", Level: "translation_validation",
+		Explanation: "the fuzzer's Transformer is executed symbolically with math/rand replaced by fork variables (every draw may take any value; bounded number of non-default draws per path), the variant is printed and re-analysed (the project's own path) and original and variant run on the VM in the same path with unconstrained host inputs; outputs are compared as SMT terms (bit-vector / floating-point identities decided by the solver)",
+		Harnesses: []HarnessSpec{
+			{Pkg: "homescript", Func: "VerifHarness_FuzzTransform", Quick: map[string]int{"passes": 1}, Thor: map[string]int{"passes": 2}, ThorPaths: 400000, ThorSecs: 1500, Require: []string{"ran"},
+				Opts: gosym.Options{RandBudget: 1},
+				What: "10 programs of the stated class (arithmetic/comparison on unconstrained ints and floats, multiplication by K in 0..3, literals, if/else, loops with break/continue, casts, functions and globals, try/match, none/null literals) x every combination of <= 2 non-default random draws: variant accepted, same outcome and output"},
+		},
+	},
+	{
 		ID: "C19", Level: "translation_validation",
 		Explanation: "print -> re-lex -> re-parse (-> re-analyse -> run) inside one symbolic path for both printers on a program corpus with unconstrained host inputs, a string literal whose content runes are solver variables, and Optimize(p) vs p on the VM; outputs and outcomes are compared as SMT terms",
 		Harnesses: []HarnessSpec{
